@@ -635,12 +635,100 @@ def install_methods(E):
     def m_b_tobytes(E_, o):
         return E_.mk_bytes(o.items, False, "bytes")
 
+    def strip_set(E_, chars):
+        if chars is None:
+            return [9, 10, 11, 12, 13, 32]
+        if not isinstance(chars, Bytes) or not all(isinstance(c, int) for c in chars.items):
+            raise Unsupported("strip with symbolic character set")
+        return list(chars.items)
+
+    def in_set(E_, x, cs):
+        acc = False
+        for c in cs:
+            t = E_.equal(x, c)
+            if t is True:
+                return True
+            if t is not False:
+                acc = t if acc is False else mk_bool(z3.Or(acc.e, t.e))
+        return acc
+
+    def m_b_rstrip(E_, o, chars=None):
+        cs = strip_set(E_, chars)
+        n = len(o.items)
+        while n > 0 and E_.decide(in_set(E_, o.items[n - 1], cs)):
+            n -= 1
+        return E_.mk_bytes(o.items[:n], o.mutable, o.kind if o.kind != "memoryview" else "bytes")
+
+    def m_b_lstrip(E_, o, chars=None):
+        cs = strip_set(E_, chars)
+        k = 0
+        while k < len(o.items) and E_.decide(in_set(E_, o.items[k], cs)):
+            k += 1
+        return E_.mk_bytes(o.items[k:], o.mutable, o.kind if o.kind != "memoryview" else "bytes")
+
+    def m_b_strip(E_, o, chars=None):
+        return m_b_rstrip(E_, m_b_lstrip(E_, o, chars), chars)
+
+    def m_b_partition(E_, o, sep):
+        if not isinstance(sep, Bytes) or len(sep.items) == 0:
+            raise Unsupported("partition separator")
+        i = E_.concretize(m_find(E_, o, sep))
+        kind = o.kind if o.kind != "memoryview" else "bytes"
+        if i < 0:
+            return (E_.mk_bytes(o.items, o.mutable, kind), E_.mk_bytes([], o.mutable, kind), E_.mk_bytes([], o.mutable, kind))
+        n = len(sep.items)
+        return (E_.mk_bytes(o.items[:i], o.mutable, kind), E_.mk_bytes(o.items[i:i + n], o.mutable, kind), E_.mk_bytes(o.items[i + n:], o.mutable, kind))
+
+    def m_b_split(E_, o, sep=None, maxsplit=-1):
+        if sep is None or not isinstance(sep, Bytes) or len(sep.items) == 0:
+            raise Unsupported("split separator")
+        out = []
+        rest = o
+        k = E_.concretize(maxsplit)
+        while k != 0:
+            head, s_, tail = m_b_partition(E_, rest, sep)
+            if len(s_.items) == 0:
+                break
+            out.append(head)
+            rest = tail
+            k -= 1
+        out.append(rest if rest is not o else E_.mk_bytes(o.items, o.mutable, o.kind if o.kind != "memoryview" else "bytes"))
+        return E_.mk_list(out)
+
+    def m_b_startswith(E_, o, prefix):
+        if not isinstance(prefix, Bytes):
+            raise Unsupported("startswith argument")
+        n = len(prefix.items)
+        if n > len(o.items):
+            return False
+        return E_.equal(Bytes(o.items[:n], False), Bytes(prefix.items, False))
+
+    def m_b_endswith(E_, o, suffix):
+        if not isinstance(suffix, Bytes):
+            raise Unsupported("endswith argument")
+        n = len(suffix.items)
+        if n > len(o.items):
+            return False
+        return E_.equal(Bytes(o.items[len(o.items) - n:], False), Bytes(suffix.items, False))
+
+    def m_b_translate(E_, o, table, delete=None):
+        if delete is not None or not isinstance(table, Bytes) or len(table.items) != 256:
+            raise Unsupported("translate arguments")
+        if not all(isinstance(t, int) for t in table.items):
+            raise Unsupported("translate with a symbolic table")
+        out = []
+        for x in o.items:
+            out.append(table.items[x] if isinstance(x, int) else E_.table_lookup(table.items, zi(x)))
+        return E_.mk_bytes(out, o.mutable, o.kind if o.kind != "memoryview" else "bytes")
+
     def m_b_hex(E_, o):
         return OPAQUE
 
     for k, f in dict(find=m_find, rfind=m_rfind, index=m_index, decode=m_decode, append=m_b_append, extend=m_b_extend,
                      reverse=m_b_reverse, copy=m_b_copy, clear=m_b_clear, pop=m_b_pop, insert=m_b_insert,
-                     count=m_b_count, tobytes=m_b_tobytes, hex=m_b_hex).items():
+                     count=m_b_count, tobytes=m_b_tobytes, hex=m_b_hex, rstrip=m_b_rstrip, lstrip=m_b_lstrip, strip=m_b_strip,
+                     partition=m_b_partition, split=m_b_split, startswith=m_b_startswith, endswith=m_b_endswith,
+                     translate=m_b_translate).items():
         M[("bytes", k)] = f
 
     # ---- list
